@@ -30,7 +30,7 @@ func DefaultSolvers(timeoutS int) []SolverCfg {
 	return []SolverCfg{
 		{"z3-5.1.0", []string{"z3-new", fmt.Sprintf("-T:%d", timeoutS)}},
 		{"z3-4.8.12", []string{"/usr/bin/z3", fmt.Sprintf("-T:%d", timeoutS)}},
-		{"cvc5-1.0.3", []string{"cvc5", fmt.Sprintf("--tlimit=%d", timeoutS*1000), "--produce-models"}},
+		{"cvc5-1.0.3", []string{"cvc5", fmt.Sprintf("--tlimit=%d", timeoutS*1000), "--produce-models", "--strings-exp"}},
 	}
 }
 
